@@ -87,14 +87,33 @@ func race(file string, timeoutS int, waitAll bool) (answers map[string]string, w
 		}(n)
 	}
 	answers = map[string]string{}
+	var grace <-chan time.Time
 	for i := 0; i < len(names); i++ {
-		a := <-ch
+		var a ans
+		select {
+		case a = <-ch:
+		case <-grace:
+			// cross-check budget used up: the solvers still running are recorded as not finished
+			for _, n := range names {
+				if _, ok := answers[n]; !ok {
+					answers[n] = "timeout"
+				}
+			}
+			elapsed = time.Since(start).Seconds()
+			return
+		}
 		answers[a.name] = a.a
 		if (a.a == "unsat" || a.a == "sat") && winner == "" {
 			winner = a.name
 			if !waitAll {
 				break
 			}
+			// thorough: the other solvers get a bounded time to confirm or contradict the first answer
+			g := time.Duration(timeoutS/4) * time.Second
+			if g < 10*time.Second {
+				g = 10 * time.Second
+			}
+			grace = time.After(g)
 		}
 	}
 	elapsed = time.Since(start).Seconds()
